@@ -198,8 +198,25 @@ class _Gen:
         y = f"({y})" if " " in y and not _is_const(y) and not y.startswith("g(") else y
         return f"{x} {op} {y}"
 
+    def lin(self, env):
+        """linear operand of a comparison (conditions with divisions / products of two variables make path
+        feasibility a non-linear problem: those are covered by the enumerated part only)"""
+        r = self.r.random()
+        x = self.leaf(env)
+        if r < 0.45:
+            return x
+        y = self.leaf(env)
+        if _is_const(x) and _is_const(y) and env:
+            x = self.r.choice(sorted(env))
+        if r < 0.85:
+            self.feats.add("add" if r < 0.65 else "sub")
+            return f"{x} {'+' if r < 0.65 else '-'} {y}"
+        self.feats.add("mul")
+        c = self.r.choice(["2", "3", "(0 - 2)"])
+        return f"{c} * {x}" if not _is_const(x) else f"{x} + {y}"
+
     def cmp(self, env):
-        return f"{self.expr(env, 1)} {self.r.choice(CMPS)} {self.expr(env, 1)}"
+        return f"{self.lin(env)} {self.r.choice(CMPS)} {self.lin(env)}"
 
     def cond(self, env, depth=0):
         r = self.r.random()
@@ -364,7 +381,20 @@ class _Gen:
         env = set(self.params)
         lines, env, ft = self.block(env, 0, [], set(), maxlen=4)
         if ft:
-            lines.append(f"return {self.expr(env)}")
+            # make the effects of the statements above observable: the result depends on the assigned variables
+            assigned = sorted(v for v in env if v not in self.bound)
+            self.r.shuffle(assigned)
+            pick = assigned[:3]
+            if pick and self.r.random() < 0.85:
+                self.feats.add("add")
+                base = " + ".join(pick)
+                if self.r.random() < 0.5:
+                    self.feats.add("sub")
+                    lines.append(f"return ({base}) - {self.lin(env)}" if len(pick) > 1 else f"return {base} - {self.lin(env)}")
+                else:
+                    lines.append(f"return {base}")
+            else:
+                lines.append(f"return {self.expr(env)}")
         return lines
 
 
@@ -386,6 +416,42 @@ def random_program(rnd, pid):
     return _prog(pid, body, feats, helper)
 
 
+def cost(src):
+    """static estimate of the solver effort of a program: floor divisions by a constant count 1, by a
+    non-constant 2, multiplications of two non-constant operands 2, calls the cost of the callee; x3 per
+    enclosing loop (unwinding)"""
+    import ast
+    tree = ast.parse(src)
+    fcost = {}
+
+    def is_const(e):
+        return all(isinstance(n, (ast.Constant, ast.BinOp, ast.operator, ast.expr_context)) for n in ast.walk(e))
+
+    def walk(node, mult):
+        c = 0
+        for ch in ast.iter_child_nodes(node):
+            m = mult
+            if isinstance(node, (ast.For, ast.While)) and ch in node.body:
+                m = mult * 3
+            c += walk(ch, m)
+        if isinstance(node, ast.BinOp) or isinstance(node, ast.AugAssign):
+            l, r = (node.left, node.right) if isinstance(node, ast.BinOp) else (node.target, node.value)
+            if isinstance(node.op, ast.FloorDiv) and not (is_const(l) and is_const(r)):
+                c += mult * (1 if is_const(r) else 2)
+            if isinstance(node.op, ast.Mult) and not is_const(l) and not is_const(r):
+                c += 2 * mult
+        if isinstance(node, ast.Call) and isinstance(node.func, ast.Name) and node.func.id in fcost:
+            c += fcost[node.func.id] * mult
+        return c
+
+    for fn in tree.body:
+        fcost[fn.name] = walk(fn, 1)
+    return fcost[tree.body[-1].name]
+
+
+MAX_COST = 3
+
+
 def programs(tier, seed):
     P = fixed_programs()
     n = 60 if tier == "quick" else 1400
@@ -394,7 +460,7 @@ def programs(tier, seed):
     k = 0
     while k < n:
         p = random_program(rnd, f"r{seed}-{k:04d}")
-        if p["src"] in seen:
+        if p["src"] in seen or cost(p["src"]) > MAX_COST:
             continue
         seen.add(p["src"])
         P.append(p)
